@@ -24,7 +24,7 @@ from .. import tracecheck, netbuild
 PID = "C10"
 
 STOCK_QUICK = ["kundur/kundur_full.json", "ieee14/ieee14_pvd1.json", "5bus/pjm5bus.json", "ieee14/ieee14_full.xlsx",
-               "kundur/kundur_coi.json", "wecc/wecc_full.xlsx"][:5]
+               "kundur/kundur_coi.json", "kundur/kundur_motor.xlsx", "kundur/kundur_coi_partial.xlsx"]
 
 
 def stock_cases():
@@ -101,6 +101,15 @@ def run(tier):
         scs.append(dict(sid="stock[%s]" % c, case=c, collate=[]))
     for c in (cases[:2] if quick else cases[:12]):
         scs.append(dict(sid="stock[%s|collate]" % c, case=c, collate=["GENROU", "EXDC2", "TGOV1", "GENCLS"]))
+    # set-up a second time on the same System (System.reset): cases with states in the power-flow phase included
+    for c in (["kundur/kundur_motor.xlsx", "kundur/kundur_full.json", "ieee14/ieee14_pvd1.json"] if quick else
+              ["kundur/kundur_motor.xlsx"] + cases[:25]):
+        if os.path.exists(os.path.join(CASES, c)):
+            scs.append(dict(sid="stock[%s|reset]" % c, case=c, collate=[], reset=True))
+    # optional index fields with missing entries before, between and after the entries that are set (back-references)
+    for pat in ([None, 1, 1, 2], [2, None, 1, 1], [1, None, None, 2], [None, None, 1, 1]):
+        scs.append(dict(sid="stock[kundur/kundur_coi.xlsx|GENROU.coi=%s]" % pat, case="kundur/kundur_coi.xlsx", collate=[],
+                        set_before_setup=[("GENROU", "coi", pat)]))
     for i, sc in enumerate(scs):
         sc["tid"] = i + 1
     res = run_tasks("vh.addrdrv:run_addr", scs, nproc=NCPU, timeout=600)
